@@ -1120,6 +1120,12 @@ class Model(object):
             return Verdict({400})
         if len(q) != len(qd):
             return None
+        if 'consumer_type' in qd and not (
+                qd['consumer_type'] in ('all', 'unknown') or
+                (RC_RX.match(qd['consumer_type']) and
+                 len(qd['consumer_type']) <= 255)):
+            # "all", "unknown" or a consumer type name
+            return Verdict({400})
 
         def body(j, d):
             pj, us = qd['project_id'], qd.get('user_id')
